@@ -32,8 +32,7 @@ let show_fname = function
   | Convert.Hidden t -> "(h " ^ show_str t ^ ")"
 let show_err = function
   | Convert.KeyError -> "KeyError" | Convert.IndexError -> "IndexError"
-  | Convert.ZeroDivisionError -> "ZeroDivisionError" | Convert.RuntimeError -> "RuntimeError"
-  | Convert.TypeError -> "TypeError"
+  | Convert.RuntimeError -> "RuntimeError"
 let show_res f = function Convert.Ok a -> "(ok " ^ f a ^ ")" | Convert.Err e -> "(err " ^ show_err e ^ ")"
 let show_rows = show_list (show_list show_value)
 let show_dict f d = show_list (fun (k, v) -> "(" ^ show_fname k ^ " " ^ f v ^ ")") d
@@ -44,8 +43,8 @@ let show_row (combo, (f, (num, den))) =
 let () =
   register "design" (function [cr; d] ->
     show_list show_fname (Convert.block_design (cross_of cr) (design_of d)) | _ -> "!args");
-  register "keys" (function [cr; d] ->
-    show_list show_fname (Convert.conv_keys (cross_of cr) (design_of d)) | _ -> "!args");
+  register "keys" (function [d] ->
+    show_list show_fname (Convert.conv_keys (design_of d)) | _ -> "!args");
   register "usernames" (function [d] ->
     show_list show_fname (Convert.user_names (design_of d)) | _ -> "!args");
   register "tuples" (function [keys; exps] ->
@@ -55,15 +54,15 @@ let () =
       (Convert.dicts_of (list_of_sexp fname_of keys) (exps_of exps)) | _ -> "!args");
   register "csv" (function [keys; exps] ->
     show_res (show_list show_csv) (Convert.csv_of (list_of_sexp fname_of keys) (exps_of exps)) | _ -> "!args");
-  register "btuples" (function [cr; d; exps] ->
+  register "btuples" (function [d; exps] ->
     show_res (show_list show_rows)
-      (Convert.experiments_to_tuples (cross_of cr) (design_of d) (exps_of exps)) | _ -> "!args");
-  register "bdicts" (function [cr; d; exps] ->
+      (Convert.experiments_to_tuples (design_of d) (exps_of exps)) | _ -> "!args");
+  register "bdicts" (function [d; exps] ->
     show_res (show_list (show_list (show_dict show_value)))
-      (Convert.experiments_to_dicts (cross_of cr) (design_of d) (exps_of exps)) | _ -> "!args");
-  register "bcsv" (function [cr; d; exps] ->
+      (Convert.experiments_to_dicts (design_of d) (exps_of exps)) | _ -> "!args");
+  register "bcsv" (function [d; exps] ->
     show_res (show_list show_csv)
-      (Convert.save_experiments_csv (cross_of cr) (design_of d) (exps_of exps)) | _ -> "!args");
+      (Convert.save_experiments_csv (design_of d) (exps_of exps)) | _ -> "!args");
   register "synthpost" (function [wi; cont] ->
     show_dict (show_list show_value) (Convert.synth_post (exp_of wi) (exp_of cont)) | _ -> "!args");
   register "product" (function [ls] ->
